@@ -284,6 +284,7 @@ func init() {
 		partFloods(c, a)
 		partStalls(c, a)
 		partKeepAlive(c, a)
+		partRealBinaryDefaults(c, a, "C08")
 		partGated(c, a, []func(*sut.Proc) *e2.Result{e2.G13FrameWorkerVsLeaver}, 1)
 		return a.finish(c)
 	}
